@@ -140,6 +140,39 @@ def _bound_in(stmts) -> List[str]:
     return out
 
 
+def _binds_then_cannot_raise(body) -> bool:
+    """in this try body, nothing that can raise is executed after a binding: a handler is then entered with the bindings the try statement started with.
+    (bindings are plain `name = constant / name`; what follows each of them, to the end of the try body, is only more of the same, pass, break, continue.)"""
+    def quiet(st):
+        if isinstance(st, (ast.Pass, ast.Break, ast.Continue)):
+            return True
+        if isinstance(st, ast.Assign):
+            return all(isinstance(t, ast.Name) for t in st.targets) and isinstance(st.value, (ast.Constant, ast.Name))
+        return False
+
+    def binds(st):
+        return any(isinstance(n, (ast.Assign, ast.AugAssign, ast.AnnAssign, ast.NamedExpr, ast.For, ast.With)) or
+                   (isinstance(n, ast.Call) and isinstance(n.func, ast.Attribute) and n.func.attr in _MUTATORS) for n in ast.walk(st))
+
+    def ok(stmts, tail_quiet: bool) -> bool:
+        """tail_quiet: everything that runs after this block (inside the try) is quiet"""
+        for k, st in enumerate(stmts):
+            rest_quiet = tail_quiet and all(quiet(x) for x in stmts[k + 1:])
+            if not binds(st):
+                continue
+            if quiet(st):
+                if not rest_quiet:
+                    return False
+                continue
+            if isinstance(st, ast.If) and not any(isinstance(n, ast.NamedExpr) for n in ast.walk(st.test)):
+                if not (ok(st.body, rest_quiet) and ok(st.orelse, rest_quiet)):
+                    return False
+                continue
+            return False
+        return True
+    return ok(list(body), True)
+
+
 def path_summaries(f: FuncInfo, limit: int = 512, body: Optional[List[ast.stmt]] = None, env0: Optional[Dict[str, ast.expr]] = None) -> Optional[List[Path]]:
     out: List[Path] = []
     over = [False]
@@ -225,8 +258,9 @@ def path_summaries(f: FuncInfo, limit: int = 512, body: Optional[List[ast.stmt]]
             run(list(st.body) + list(st.orelse), conds, env, eff, [list(st.finalbody) + rest] + k)
             for h in st.handlers:
                 e2 = dict(env)
-                for nm in _bound_in(st.body):
-                    e2[nm] = call("__maybe__", e2.get(nm, ast.Name(id=nm, ctx=ast.Load())), ast.Constant(value=nm))
+                if not _binds_then_cannot_raise(st.body):
+                    for nm in _bound_in(st.body):
+                        e2[nm] = call("__maybe__", e2.get(nm, ast.Name(id=nm, ctx=ast.Load())), ast.Constant(value=nm))
                 if h.name:
                     e2[h.name] = ast.Name(id="<exception>", ctx=ast.Load())
                 run(h.body, conds + [("except " + (norm_text(h.type) if h.type is not None else ""), True)], e2, eff, [list(st.finalbody) + rest] + k)
